@@ -284,6 +284,7 @@ func CrashCase(c *core.Case, plan CrashPlan, p int) {
 	curDB, curImg, curFiles := db, img, imgFiles
 	var nn *Node
 	var res SyncResult
+	unrepaired := "" // set when the first restart left a torn record in the log (second-crash plans with torn images)
 	signsJudged := 0
 	// clause 3: no vote/proposal conflicting with one published before the crash
 	signCheck := func(n *Node) {
@@ -365,6 +366,9 @@ func CrashCase(c *core.Case, plan CrashPlan, p int) {
 			}
 			if stage == 2 {
 				run.Count("second_restarts", 1)
+				if unrepaired != "" {
+					cause = unrepaired // the log is not decodable behind the fragment the first restart left in it
+				}
 			}
 			run.Distinct("state_after_restart:"+plan.mode(), cause)
 			run.Count("restart_state:"+cause, 1)
@@ -390,6 +394,29 @@ func CrashCase(c *core.Case, plan CrashPlan, p int) {
 			return
 		}
 		run.Count("restarts", 1)
+		if plan.Second && plan.Torn && stage == 1 && cause != "state-consistent-after-restart" {
+			// the first crash fell into one of the recovery gaps (judged by the single-crash plans): what a second
+			// crash makes of it is not attributed
+			run.Count("second_crash_after_a_first_crash_in_a_recovery_gap_skipped", 1)
+			nn.Stop(false)
+			return
+		}
+		if plan.Torn && stage == 1 && int64(len(img)) > walSize {
+			// the first image ended in a torn record: did the restart repair the log (OnStart keeps a .CORRUPTED backup
+			// when it does)? If not, everything the node appends from now on lies behind the fragment.
+			run.Count("restarts_on_a_torn_log", 1)
+			if _, err := os.Stat(nn.WAL.path + ".CORRUPTED"); err != nil {
+				rh := int64(nn.CS.GetRoundState().Height)
+				if walHasEndHeight(img, rh-1) {
+					unrepaired = "torn-record-behind-the-end-height-marker-never-repaired"
+				} else {
+					unrepaired = "torn-end-height-marker-never-repaired"
+				}
+				run.Count("restarts_on_a_torn_log_without_repair:"+unrepaired, 1)
+			} else {
+				run.Count("restarts_on_a_torn_log_with_repair", 1)
+			}
+		}
 		net.Nodes[plan.Victim] = nn
 		net.observe(nn)
 		target := net.MaxHeight() + 2
@@ -458,6 +485,15 @@ func CrashCase(c *core.Case, plan CrashPlan, p int) {
 					size2 = int64(len(walData2))
 				}
 				curImg = walData2[:size2]
+				if os.Getenv("VERIF_DEBUG_C05") != "" {
+					fmt.Fprintf(os.Stderr, "second crash: q2=%d units=%d wal file %d bytes, image %d bytes (first image %d bytes)\n", q2, len(evs2), len(walData2), size2, len(img))
+					for i, d := range evs2 {
+						fmt.Fprintf(os.Stderr, "  unit %d %s walsize=%d %s\n", i, d.Kind, d.WalSize, d.Desc)
+					}
+					for k, b := range published {
+						fmt.Fprintf(os.Stderr, "  published %v %s inWAL=%v\n", k, short(b), walHasOwn(curImg, k))
+					}
+				}
 				curFiles = nil
 				if plan.Rotate > 0 {
 					curFiles, curImg = rotatedImage(evs2, q2, filepath.Dir(nn.WAL.path))
